@@ -28,4 +28,61 @@ def gen_purefns(items):
     items.append(_fn(s, 'decode_bitwidth'))
     items.append(_fn(s, 'encode_block_wand_max_tf'))
     items.append(_fn(s, 'decode_block_wand_max_tf'))
+    w = 'columnar/src/columnar/writer/column_operation.rs'
+    items.append(_fn(w, 'encode_zig_zag'))
+    items.append(_fn(w, 'decode_zig_zag'))
+    items.append(_fn('columnar/src/utils.rs', 'compute_mask'))
+    items.append(_fn('columnar/src/column_index/optional_index/set_block/dense.rs', 'get_bit_at'))
+    items.append(_fn('stacker/src/expull.rs', 'get_block_size'))
+    items.append(_fn('stacker/src/shared_arena_hashmap.rs', 'compute_previous_power_of_two'))
+    # TinySet (common/src/bitset.rs): a one-field tuple struct over u64; methods taking `self` by
+    # value are translated as functions of the inner word. `pop_lowest` (&mut self, Option) is
+    # translated from its two expressions.
+    b = 'common/src/bitset.rs'
+    nt = {'TinySet': 'u64', 'Self': 'u64'}
+    sigs = {}
+    calls = {}
+    def tiny(name):
+        def go():
+            try:
+                text = rs2lean.impl_block(src(b), 'TinySet')
+                out = rs2lean.translate_fn(text, name, {}, 'tinyset_' + name, newtypes=nt, calls=dict(calls), sigs=sigs)
+            except rs2lean.Unsupported as e:
+                raise Fail(f'{b}::TinySet::{name}: outside the translatable subset: {e}')
+            ln, ptys, rty = sigs[name]
+            calls[('TinySet', name)] = (ln, ptys, rty)
+            calls[('Self', name)] = (ln, ptys, rty)
+            if ptys and ptys[0] == 'u64':
+                calls[('.', name)] = (ln, ptys, rty)
+            return f'-- translated from {b}::TinySet::{name}\n' + out
+        return go
+    for name in ['empty', 'complement', 'full', 'intersect', 'union', 'is_empty', 'singleton', 'contains',
+                 'insert', 'remove', 'range_lower', 'range_greater_or_equal']:
+        items.append(tiny(name))
+    def pop_lowest():
+        text = rs2lean.impl_block(src(b), 'TinySet')
+        try:
+            sig, body = rs2lean.find_fn(text, 'pop_lowest')
+        except rs2lean.Unsupported as e:
+            raise Fail(str(e))
+        if not re.match(r'\(\s*&mut\s+self\s*\)\s*->\s*Option<u32>\s*$', sig.strip()):
+            raise Fail(f'{b}::TinySet::pop_lowest: signature changed: {sig.strip()!r}')
+        m = re.match(r'\{\s*if\s+self\.is_empty\(\)\s*\{\s*None\s*\}\s*else\s*\{\s*let\s+lowest\s*=\s*(?P<low>[^;]+);'
+                     r'\s*self\.0\s*(?P<op>&=|\^=|\|=|=)\s*(?P<upd>[^;]+);\s*Some\(lowest\)\s*\}\s*\}\s*$', body.strip(), re.S)
+        if not m:
+            raise Fail(f'{b}::TinySet::pop_lowest: body no longer has the shape `if empty {{None}} else {{let lowest = E1; self.0 OP= E2; Some(lowest)}}`')
+        env = {'self': ('self_', 'u64')}
+        try:
+            low, lty = rs2lean.translate_expr(m.group('low'), env, {}, nt, dict(calls))
+            env2 = dict(env); env2['lowest'] = ("lowest'", lty)
+            upd, uty = rs2lean.translate_expr(m.group('upd'), env2, {}, nt, dict(calls), 'u64')
+        except rs2lean.Unsupported as e:
+            raise Fail(f'{b}::TinySet::pop_lowest: {e}')
+        if lty != 'u32' or uty != 'u64':
+            raise Fail(f'{b}::TinySet::pop_lowest: types {lty} / {uty}')
+        new = {'&=': f'(self_ &&& {upd})', '^=': f'(self_ ^^^ {upd})', '|=': f'(self_ ||| {upd})', '=': upd}[m.group('op')]
+        return (f'-- translated from {b}::TinySet::pop_lowest (result, new value of the set)\n'
+                f'def tinyset_pop_lowest (self_ : BitVec 64) : Option (BitVec 32) × BitVec 64 :=\n'
+                f"  (if (tinyset_is_empty self_) then (none, self_) else (let lowest' := {low}; (some lowest', {new})))")
+    items.append(pop_lowest)
     items.append(lambda: 'end Fn')
